@@ -49,7 +49,8 @@ FIELD_KINDS = ["flip_ident", "flip_key", "flip_auth", "flip_cands", "flip_cid", 
 TIME_KINDS = ["duplicate", "replay_retry", "late_removed", "slow_candidate"]
 KINDS = ["none"] + FIELD_KINDS + TIME_KINDS + ["cid_swap", "reorder", "garbage_cands", "dup_created",
                                                      "relabel_as_created", "relabel_as_extended", "fallback_exits",
-                                                     "late_relay_after", "late_relay_before", "late_relay_after_nodelay"]
+                                                     "late_relay_after", "late_relay_before", "late_relay_after_nodelay",
+                                                     "malformed_as_created"]
 
 
 def z(n):
@@ -824,7 +825,7 @@ class Attack:
     def after_extend(self, net, extend):
         from ipv8.messaging.anonymization.payload import CreatedPayload, ExtendedPayload
         c = self.circuit
-        if self.kind not in ("relabel_as_created", "relabel_as_extended") or self.fired:
+        if self.kind not in ("relabel_as_created", "relabel_as_extended", "malformed_as_created") or self.fired:
             return
         if extend.circuit_id != c.circuit_id or self.k_now() != self.k or not c._hops:
             return
@@ -834,9 +835,14 @@ class Attack:
         o = net.origin
         last = net.by_key(c._hops[-1].peer.public_key.key_to_bin())
         pid = extend.identifier
+        if self.kind == "malformed_as_created":
+            earlier = earlier[:1]
         for old in earlier:
             key, auth, cands = bytes(old.key), bytes(old.auth), bytes(old.candidates_enc)
-            if self.kind == "relabel_as_created":
+            if self.kind == "malformed_as_created":
+                # a plaintext created with the pending identifier and key material X25519 cannot use
+                key = self.rng.choice([b"\0" * 32, key[:31], b"", key + b"\1"])
+            if self.kind in ("relabel_as_created", "malformed_as_created"):
                 if self.pos == "network" or last is None:
                     body = struct.pack("!HH", pid, len(key)) + key + auth + cands
                     data = o.get_prefix() + b"\x00" + struct.pack("!I??", c.circuit_id, True, False) + b"\x03" + body
@@ -863,7 +869,7 @@ class Attack:
         from ipv8.messaging.anonymization.payload import CreatedPayload, ExtendedPayload
         n = type(payload).__name__
         c = self.circuit
-        if self.pos == "network" or self.kind.startswith("late_relay") or self.kind in ("none", "fallback_exits", "cid_swap", "reorder", "dup_created", "relabel_as_created",
+        if self.pos == "network" or self.kind.startswith("late_relay") or self.kind in ("none", "fallback_exits", "malformed_as_created", "cid_swap", "reorder", "dup_created", "relabel_as_created",
                                                   "relabel_as_extended"):
             return [payload]
         if self.fired and self.kind not in ("duplicate",):
@@ -909,12 +915,15 @@ class Attack:
             base["cands"] = es.hop.keys.encrypt_str(junk, 0)
             return [mk(base)]
         outs = self.mutate(net, base)
+        if self.kind in ("zero_key", "short_key") and self.k == 1:
+            return [mk(a) for a in outs] + [payload]        # the malformed answer first, then the genuine one
         return [mk(a) for a in outs]
 
     # -- the wire
     def on_wire(self, net, src, dst, data):
         c = self.circuit
-        if self.kind in ("none", "fallback_exits", "relabel_as_created", "relabel_as_extended") or len(data) < 30 or data[22] != 0:
+        if self.kind in ("none", "fallback_exits", "relabel_as_created", "relabel_as_extended", "malformed_as_created") \
+                or len(data) < 30 or data[22] != 0:
             return [(dst, data)]
         cid, plaintext = struct.unpack_from("!I?", data, 23)
         origin_addr = net.origin.my_peer.address
@@ -990,6 +999,13 @@ class Attack:
         for a in outs:
             body = (struct.pack("!H", a["ident"]) + struct.pack("!H", len(a["key"])) + a["key"] + a["auth"] + a["cands"])
             res.append((dst, data[:23] + struct.pack("!I", a["cid"]) + data[27:30] + body))
+        if self.kind in ("zero_key", "short_key") and self.k == 1:
+            # the malformed created arrives first - from the selected peer's address or from an unrelated one - and
+            # the genuine created after it
+            frm = src if self.rng.random() < 0.5 else ("10.9.9.9", 999)
+            for d, x in res:
+                net.net.queue.append((frm, d, x))
+            return [(dst, data)]
         return res
 
     def extend_pending(self, net):
@@ -1035,7 +1051,7 @@ def specs(ctx):
                 if kind.startswith("late_relay") and not (pos == "network" and k >= 2):
                     continue
                 relay_role = (pos == "first" and k == 2) or (pos == "middle" and k == 3)
-                if kind == "relabel_as_created" and not ((pos == "network" and k >= 2) or relay_role):
+                if kind in ("relabel_as_created", "malformed_as_created") and not ((pos == "network" and k >= 2) or relay_role):
                     continue
                 if kind == "relabel_as_extended" and not relay_role:
                     continue
@@ -1313,6 +1329,27 @@ def oracle(net, atk, info, report):
                 report("reject/hops-changed", "a %s that appended no hop changed the hop list of circuit %d (%s)" % (n, cid, spec))
             if (post[1], post[2]) != (pre[1], pre[2]) and cid not in r.rm:
                 report("reject/state-changed", "a rejected %s replaced the unverified hop / retry cache of circuit %d (%s)" % (n, cid, spec))
+    # (2b) an answer that is not accepted must not cost the circuit: anybody can send a plaintext created carrying a
+    # guessed identifier, so malformed key material (or anything else that is not accepted) leaves the circuit alone
+    for r in net.recs:
+        if r.kind != "msg" or id(r) in adds or not r.rm:
+            continue
+        n = type(r.payload).__name__ if r.payload is not None else None
+        if n not in ("CreatedPayload", "ExtendedPayload"):
+            continue
+        key = bytes(r.payload.key)
+        malformed = len(key) != 32
+        if not malformed:
+            try:
+                sym.orig_dh(sym.probe, key)
+            except ValueError:
+                malformed = True
+        frm = net.node_of(r.src) if r.src is not None else None
+        report("forged/malformed-created-removed-circuit" if malformed else "reject/removed-circuit",
+               "a %s from %s with %s that appended no hop made %s call remove_circuit(%s) (%s)"
+               % (n, frm._verif_name if frm is not None else tuple(r.src) if r.src is not None else "?",
+                  "malformed key material (%d bytes)" % len(key) if malformed else "well-formed key material", r.node,
+                  ", ".join(str(c) for c in r.rm), spec))
     # (3) over the whole run hop lists only grow by appending
     last = {}
     for r in net.recs:
@@ -1348,8 +1385,9 @@ def oracle(net, atk, info, report):
                 report("relay/extended-fields-altered", "extended does not carry the pending extend's ids and the created's key material (%s)" % spec)
     # (5) honest runs complete, with the selected peers in order, and carry data
     c1 = info.get("c1")
-    if spec[3] in ("none", "reorder", "duplicate", "dup_created", "relabel_as_created", "relabel_as_extended",
-                   "fallback_exits", "late_relay_after", "late_relay_after_nodelay") and c1 is not None:
+    if (spec[3] in ("none", "reorder", "duplicate", "dup_created", "relabel_as_created", "relabel_as_extended",
+                    "fallback_exits", "late_relay_after", "late_relay_after_nodelay", "malformed_as_created")
+            or (spec[3] in ("zero_key", "short_key") and spec[2] == 1)) and c1 is not None:
         if info["state"] != ("READY", spec[0]):
             report("honest/not-ready", "circuit not READY after an honest build (%s, state %s, %d hops)" % (spec, *info["state"]))
         else:
